@@ -3,21 +3,21 @@ package main
 import (
 	"fmt"
 	"os"
+	"runtime/pprof"
+	"strconv"
+	"strings"
+	"time"
 
 	"github.com/tsawler/tabula"
 )
 
 func main() {
-	for pg := 1; pg <= 9; pg++ {
-		fr, _, err := tabula.Open(os.Args[1]).Pages(pg).Fragments()
-		if err != nil {
-			break
-		}
-		t, _, _ := tabula.Open(os.Args[1]).Pages(pg).Text()
-		fmt.Println("---- page", pg)
-		for _, f := range fr {
-			fmt.Printf("%7.2f %7.2f w=%6.2f sz=%4.1f %s %q\n", f.X, f.Y, f.Width, f.FontSize, f.FontName, f.Text)
-		}
-		fmt.Println(t)
-	}
+	n, _ := strconv.Atoi(os.Args[1])
+	s := "<html><body><p>x</p>" + strings.Repeat("<"+os.Args[2]+">", n) + "hello" + "</body></html>"
+	f, _ := os.Create("/tmp/cpu.prof")
+	pprof.StartCPUProfile(f)
+	t := time.Now()
+	_, _, err := tabula.FromHTMLString(s).Text()
+	fmt.Println("Text", n, time.Since(t), err)
+	pprof.StopCPUProfile()
 }
